@@ -133,6 +133,32 @@ def oracle(ctx):
                     fail = f'--name is not followed by the container name {name!r}: {words}'
         if fail:
             res.oracle_failures.append(dict(op=op, impl_output=core.dec_line(rawhex), oracle_expectation=fail))
+    # the intended arguments, stated independently of the line: every documented key whose option carries the value's text, with values
+    # that need quoting — the documented option group must be found, byte for byte and as consecutive arguments, in what systemd's
+    # splitter makes of the generated line (whatever route the value takes into the command inside the generator)
+    from props import c02
+    NASTY = ['a b', 'two  blanks', 'tab\there', 'q"r', "it's", 'back\\slash', 'é x', 'semi;colon x', '$VAR x', 'p%q r', 'trail ', ' lead', "mix \"' x"]
+    k_ops, k_meta = [], []
+    for ty in G.TYPES:
+        for key, kind, spec in c02.key_specs(ty):
+            if not (kind in ('str', 'all', 'allg') or (kind == 'special' and callable(spec))):
+                continue
+            for v in rnd.sample(NASTY, 13 if ctx.thorough else 3):
+                want = [spec, v] if kind in ('str', 'all', 'allg') else spec(v)
+                if isinstance(want, tuple):
+                    want = [want[1], want[2]]
+                text = '[' + G.SEC[ty] + ']\n' + '\n'.join(G.BASE[ty] + [f'{key}={c02.dq(v)}']) + '\n'
+                k_ops.append(f'convert\t0\t0\t{hx("/q/k." + ty)}\t{hx(text)}')
+                k_meta.append((ty, key, v, want, text))
+    k_out = ctx.impl(k_ops)
+    k_av = c02.argv(ctx, k_out)
+    for (ty, key, v, want, text), op, a, av in zip(k_meta, k_ops, k_out, k_av):
+        res.oracle_evals += 1
+        if av is None:
+            continue   # rejected for its value (enumerated keys): not a statement about the line
+        if not any(av[i:i + len(want)] == want for i in range(len(av) - len(want) + 1)):
+            res.oracle_failures.append(dict(op=op, input=dict(unit=text, key=key, value=v), impl_output=str(av),
+                                            oracle_expectation=f'{key}={v!r} of a .{ty}: the arguments {want} reach podman as written (consecutive, byte-identical) after systemd splits the line'))
     # the executable is an argument too: it comes from the environment (PODMAN) and may need quoting
     import e2e, os, re as _re, shutil
     for podman in ('/opt/container tools/podman', '/opt/it\'s/podman', '/opt/q"uote/podman', '/opt/back\\slash/podman', '/opt/tab\there/podman', '/opt/é/podman'):
